@@ -8,7 +8,7 @@ errors: tokens in print order have strictly increasing, disjoint offsets, hold s
 is their concatenation (recovery never invents, duplicates or reorders text)."""
 import random
 
-from . import core, syntax, progs, lexgen, c01
+from . import core, syntax, progs, lexgen, c01, semerr
 
 # token runs that are never a (prefix of a) valid statement; the second group is not bracket-balanced: a stray ')' or ']'
 # is itself the malformed statement (a stray '}' would legitimately close the enclosing block, so it is not used)
@@ -56,6 +56,42 @@ def run(tier):
                 # empty there - Lexer.tla's RetUnderflow - whatever was pushed and popped before)
                 for k in range(1, 4):
                     cases.append((family, kind, seq, k, ["} ", "} } ", "}; "][(i + k) % 3]))
+    # errors the parser cannot recover from before the end of the input (a block left open): whenever a tree is returned all
+    # the same, the complete top-level statements in front of the open construct must be in it
+    giveups = []
+    for family in ("7", "5"):
+        mine = [c for c in cases if c[0] == family][:: max(1, len([c for c in cases if c[0] == family]) // (40 if tier == "quick" else 400))]
+        for (_, _, seq, _, _) in mine:
+            for tail in ("function g9() { $a = ", "if ($c9) { f9(", "class C9 { function m() { return [1, ", "$z9 = array(1, "):
+                giveups.append((family, "top", seq[:2], "".join(seq[:2]) + tail))
+                giveups.append((family, "namespaces", ["namespace A9 { " + seq[0] + "}\n", "namespace B9 { " + seq[1] + "}\n"],
+                                "namespace A9 { " + seq[0] + "}\nnamespace B9 { " + seq[1] + tail))
+    tasks = []
+    for family, kind, pre, broken in giveups:
+        ver = progs.VERS[family][0]
+        tasks.append({"op": "stmt_fps", "src": "<?php " + "".join(pre), "ver": ver, "path": ["Stmts"]})
+        tasks.append({"op": "stmt_fps", "src": "<?php " + broken, "ver": ver, "path": ["Stmts"]})
+    gres = wp.run(tasks)
+    ngive = 0
+    for j, (family, kind, pre, broken) in enumerate(giveups):
+        ro, rb = gres[2 * j], gres[2 * j + 1]
+        check.count(2)
+        if any(x.get("panic") or x.get("hang") or x.get("crash") for x in (ro, rb)) or ro.get("nerr", 1) > 0 or not ro.get("path_ok"):
+            continue
+        if rb.get("nerr", 0) == 0:
+            check.violation({"class": "malformed-statement-accepted", "bad": "open-construct-at-end"}, {"src": tasks[2 * j + 1]["src"]})
+            continue
+        if not rb.get("root") or not rb.get("path_ok"):
+            continue          # no tree: nothing is claimed
+        ngive += 1
+        need = len(pre) - (1 if kind == "namespaces" else 0)      # the second namespace is the open construct itself
+        want = [x[0] for x in ro["fps"][:need]]
+        got = [x[0] for x in (rb["fps"] or [])[:need]]
+        if want != got:
+            check.violation({"class": "preceding-statement-lost-or-changed", "context": "give-up-" + kind, "bad": "open-construct-at-end", "kind": ro["fps"][0][2]},
+                            {"src": tasks[2 * j + 1]["src"], "complete_prefix": tasks[2 * j]["src"], "expected_kinds": [x[2] for x in ro["fps"]],
+                             "observed_kinds": [x[2] for x in (rb["fps"] or [])]})
+    check.cov["give_up_cases_with_a_tree"] = ngive
     tasks = []
     for family, kind, seq, k, bad in cases:
         orig, path = wrap(kind, seq)
@@ -99,6 +135,9 @@ def run(tier):
     srcs += [c["src"] for c in lexgen.cases(check, tier, rng)][:: (3 if tier == "quick" else 1)] + c01.random_inputs(rng, 1500 if tier == "quick" else 20000, 14)
     srcs = list(dict.fromkeys(srcs))
     t2 = [{"op": "analyze", "src": s.decode("latin-1"), "ver": ["7.4", "5.6"][i % 2]} for i, s in enumerate(srcs)]
+    # trees returned together with an error that a grammar action reported itself (PHP 5) and with give-ups
+    t2 += [{"op": "analyze", "src": p["src"], "ver": v} for p in semerr.programs()[:: (2 if tier == "quick" else 1)] for v in ("5.6", "5.3")]
+    t2 += [{"op": "analyze", "src": "<?php " + broken, "ver": progs.VERS[family][0]} for family, _, _, broken in giveups]
     ntrees = 0
     for t, r in zip(t2, wp.run(t2)):
         check.count()
